@@ -135,7 +135,7 @@ type writer struct {
 	o Options
 	// prefixes
 	office, style, text, table, fo, xlink string
-	nlink, nbm                             int
+	nlink, nbm                            int
 }
 
 func (w *writer) prefixes() {
